@@ -49,19 +49,74 @@ func init() {
 	externals["(*internal/godebug.Setting).Value"] = func(fr *frame, args []value) value { return "" }
 	externals["(*internal/godebug.Setting).IncNonDefault"] = func(fr *frame, args []value) value { return nil }
 
+	// errors.As / errors.Is on interpreter interfaces (reflect-free model)
+	externals["errors.As"] = func(fr *frame, args []value) value {
+		err, ok := args[0].(iface)
+		tgt, ok2 := args[1].(iface)
+		if !ok || !ok2 || tgt.t == nil {
+			panic("errors.As: bad arguments")
+		}
+		pt, isPtr := tgt.t.Underlying().(*types.Pointer)
+		if !isPtr {
+			panic("errors.As: target must be a non-nil pointer")
+		}
+		T := pt.Elem()
+		for depth := 0; err.t != nil && depth < 50; depth++ {
+			if types.AssignableTo(err.t, T) {
+				cell := tgt.v.(*value)
+				if _, isI := T.Underlying().(*types.Interface); isI {
+					setCell(cell, err)
+				} else {
+					setCell(cell, err.v)
+				}
+				return true
+			}
+			next, okU := unwrapErr(fr, err)
+			if !okU {
+				return false
+			}
+			err = next
+		}
+		return false
+	}
+	externals["errors.Is"] = func(fr *frame, args []value) value {
+		err, ok := args[0].(iface)
+		tgt, ok2 := args[1].(iface)
+		if !ok || !ok2 {
+			return false
+		}
+		for depth := 0; err.t != nil && depth < 50; depth++ {
+			if tgt.t != nil && types.Identical(err.t, tgt.t) {
+				if pe, isP := err.v.(*value); isP {
+					if pt, isP2 := tgt.v.(*value); isP2 && pe == pt {
+						return true
+					}
+				} else if equals(err.t, err.v, tgt.v) {
+					return true
+				}
+			}
+			next, okU := unwrapErr(fr, err)
+			if !okU {
+				return false
+			}
+			err = next
+		}
+		return tgt.t == nil && err.t == nil
+	}
+
 	// ---- sync/atomic on interpreter cells ----
 	swap := func(fr *frame, args []value) value {
 		addr := args[0].(*value)
 		ex.syncEvent("swap", addr)
 		old := *addr
-		setCell(addr, args[1])
+		setCellAtomic(addr, args[1])
 		return old
 	}
 	cas := func(fr *frame, args []value) value {
 		addr := args[0].(*value)
 		ex.syncEvent("cas", addr)
 		if scalarEq(*addr, args[1]) {
-			setCell(addr, args[2])
+			setCellAtomic(addr, args[2])
 			return true
 		}
 		return false
@@ -74,7 +129,7 @@ func init() {
 	storeF := func(fr *frame, args []value) value {
 		addr := args[0].(*value)
 		ex.syncEvent("store", addr)
-		setCell(addr, args[1])
+		setCellAtomic(addr, args[1])
 		return nil
 	}
 	add := func(fr *frame, args []value) value {
@@ -88,7 +143,7 @@ func init() {
 		} else {
 			r = binopAdd(*addr, args[1])
 		}
-		setCell(addr, r)
+		setCellAtomic(addr, r)
 		return r
 	}
 	for _, n := range []string{"Int32", "Int64", "Uint32", "Uint64", "Uintptr", "Pointer"} {
@@ -116,6 +171,13 @@ func init() {
 			v := lst[n-1]
 			logPool(p)
 			ex.pools[p] = lst[: n-1 : n-1]
+			if ex.par != nil {
+				if it, ok := v.(iface); ok {
+					if pv, ok := it.v.(*value); ok {
+						ex.par.acquire(pv)
+					}
+				}
+			}
 			return v
 		}
 		st := (*p).(structure)
@@ -139,6 +201,13 @@ func init() {
 		ex.syncEvent("pool.put", p)
 		if it, ok := args[1].(iface); ok && it.t == nil {
 			return nil
+		}
+		if ex.par != nil {
+			if it, ok := args[1].(iface); ok {
+				if pv, ok := it.v.(*value); ok {
+					ex.par.release(pv)
+				}
+			}
 		}
 		logPool(p)
 		old := ex.pools[p]
@@ -597,4 +666,22 @@ func heapSize(v value, seen map[*value]bool, seenSl map[*value]int, depth int) i
 		return n
 	}
 	return 0
+}
+
+func unwrapErr(fr *frame, err iface) (iface, bool) {
+	ms := fr.i.prog.MethodSets.MethodSet(err.t)
+	sel := ms.Lookup(nil, "Unwrap")
+	if sel == nil {
+		return iface{}, false
+	}
+	fn := fr.i.prog.MethodValue(sel)
+	if fn == nil {
+		return iface{}, false
+	}
+	r := call(fr.i, fr, 0, fn, []value{err.v})
+	ri, ok := r.(iface)
+	if !ok {
+		return iface{}, false
+	}
+	return ri, true
 }
